@@ -20,6 +20,7 @@ mod rng;
 mod sched;
 mod sim;
 mod store;
+mod tamper;
 mod world;
 
 use std::time::{Duration, Instant};
